@@ -33,14 +33,15 @@ def parseL4Case (j : Json) : Rt.Case :=
     badRow := optInt j "badRow", fetchErrAt := optInt j "fetchErrAt", closeErr := gb j "closeErr",
     prepareErr := gb j "prepareErr", runErr := gb j "runErr", txEnd := gs j "txEnd",
     finishers := strList j "finishers", concurrent := gn j "concurrent", op := gs j "op",
-    dests := gs j "dests", calls := strList j "calls", cancelAt := optInt j "cancelAt" }
+    dests := gs j "dests", calls := strList j "calls", cancelAt := optInt j "cancelAt",
+    preCtx := gs j "preCtx", extraSets := gn j "extraSets" }
 
 def parseL4Obs (j : Json) : Rt.Obs :=
   { returns := strList j "returns", events := strList j "events", eventCtx := strList j "eventCtx",
     eventConn := natList j "eventConn", inUse := gn j "inUse", openRows := gn j "openRows",
     doubleClose := gn j "doubleClose", closedUse := gn j "closedUse", stored := gn j "stored",
     priorKept := gb j "priorKept", appended := natList j "appended", outcome := gs j "outcome",
-    finish := strList j "finish", winners := gn j "winners" }
+    finish := strList j "finish", winners := gn j "winners", preReturn := gs j "preReturn" }
 
 def predJson (p : Rt.Pred) : Json :=
   Json.mkObj [("returns", Json.arr (p.returns.map Json.str).toArray),
